@@ -130,6 +130,8 @@ def run(tier):
     chk.validate("Trace_Session.tla", "Trace_Session.cfg", trs, "matrix", sigfn=sig, nontrivial=lambda t: sum(1 for e in t["ev"] if e.get("k") == "pull") >= 20)
     chk.sample({"cfg": trs[0]["cfg"], "first_events": [{k: v for k, v in e.items() if k in ("k", "t", "pt", "ptok", "cands", "rel")} for e in trs[0]["ev"][1:4]]})
     chk.notes["sessions"] = len(trs)
+    rt = PC.repo_test_traces(chk, tier)
+    chk.validate("Trace_Session.tla", "Trace_Session.cfg", rt, "repotests", sigfn=lambda tr, c, l: {"source": "repository test"}, chunk=20, nontrivial=lambda t: len(t["ev"]) > 50)
     chk.notes["algorithms"] = sorted(set(c["algo"] for c in cfgs))
     chk.assumptions = ["rewards finite; T <= declared budget; SOO/StoSOO depth caps >= budget (the property's side conditions)", "a call that does not return within 30 s is a hang"]
     return chk.finish(
